@@ -138,10 +138,12 @@ impl BitWriter {
         self.write_one(x & 1 > 0);
         x >>= 1;
       } else {
+        // the terminating 0 is only read (and so only written) when fewer
+        // than BITS_TO_ENCODE_N_ENTRIES bits of the number have been encoded
+        self.write_one(false);
         break;
       }
     }
-    self.write_one(false);
   }
 
   pub(crate) fn finish_byte(&mut self) {
